@@ -95,6 +95,17 @@ def one_dataset(obs, rng, conv, spec):
     info = model.depth_info
     axes = info['axes']
     ds = depthgen.encode(model)
+    # sometimes the depth dimension carries one more (auxiliary) coordinate, e.g. a layer number: it is one of "its
+    # coordinates" and has to go with the dimension
+    aux = {}
+    if chance(rng, 0.35):
+        a = pick(rng, axes)
+        nk = ds.sizes[a['dim']]
+        aux_name = 'layer_number_' + str(a['dim'])
+        ds = ds.assign_coords({aux_name: (a['dim'], numpy.arange(nk, dtype='int32') + 1, {'long_name': 'layer number'})})
+        aux[aux_name] = a['dim']
+        obs.cls('auxiliary-coordinate-on-depth-dimension')
+    model.depth_info['aux'] = aux
     spec['model'] = model.describe()
     spec['axes'] = [depthgen.axis_summary(a) for a in axes]
     obs.cls('conv:' + conv)
@@ -132,6 +143,9 @@ def one_dataset(obs, rng, conv, spec):
                 out = obs.call('dataset.ems.ocean_floor', ems.ocean_floor, mech=lambda exc: exc_mech(axes, exc))
         else:
             coords = [a['name'] if chance(rng, 0.6) else ds[a['name']] for a in chosen]
+            if chance(rng, 0.3):
+                coords = iter(coords) if chance(rng, 0.5) else (c for c in list(coords))     # a one-shot iterable is an Iterable too
+                obs.cls('depth-coordinates-as-one-shot-iterable')
             kw = {}
             if ns == 'time':
                 kw['non_spatial_variables'] = [tname]
@@ -189,7 +203,11 @@ def check_floor(obs, model, ds, snap, before, out, chosen, route, ns, conv):
                    lambda: {'dim': a['dim'], 'dims': dict(out.sizes)}, mech='depth-dim-kept')
         obs.expect(a['name'] not in out.variables, 'depth coordinate still present after ocean_floor',
                    lambda: {'name': a['name'], 'variables': list(out.variables)}, mech='depth-coord-kept')
-    skip = set()
+    for aux_name, aux_dim in info.get('aux', {}).items():
+        if aux_dim in done_dims:
+            obs.expect(aux_name not in out.variables, 'auxiliary coordinate of the depth dimension still present (in some form) after ocean_floor',
+                       lambda: {'name': aux_name, 'dims': out[aux_name].dims if aux_name in out.variables else None}, mech='depth-coord-kept')
+    skip = set(n for n, d in info.get('aux', {}).items() if d in done_dims)
     for a in axes:
         if a['bounds'] is not None:
             skip.add(a['name'] + '_bounds')                       # property silent about a depth coordinate's bounds
